@@ -171,6 +171,8 @@ class Interp:
                 nm = (fl.name if isinstance(fl, ExtV) else "?")
                 if v.info[1]:
                     nm = nm + "." + v.info[1]
+                if nm == "attrgetter" and v.info[2] and all(isinstance(x, str) for x in v.info[2]) and not v.info[3]:
+                    return GetterV(list(v.info[2]))
                 if nm in ("timedelta", "relativedelta") and not v.info[2] and hasattr(self, "_mk_rd"):
                     kw = {k: self.lift(x) for k, x in v.info[3].items()}
                     if all(isinstance(x, IntV) for x in kw.values()):
@@ -479,6 +481,19 @@ class Interp:
             if mem is None:
                 if default is not None:
                     return [(st, default)]
+                # a class with a library base (NamedTuple, dataclass machinery, ...) may have
+                # attributes the interpreter cannot see
+                lib_base = False
+                for m_, c_ in self.class_of(obj.cls):
+                    for b_ in c_.bases:
+                        if not (isinstance(b_, ast.Name) and isinstance(self.model.env(m_.name).get(b_.id), e1.ClassRef)) \
+                                and ast.unparse(b_) not in ("object",):
+                            lib_base = True
+                    if c_.decorator_list:
+                        lib_base = True
+                if lib_base:
+                    return [(st, self.undecided(st, node, "attribute {} of {} (class with a library base or "
+                                                "decorator)".format(attr, obj.cls.name)))]
                 return [(st, self.raised("attribute", "AttributeError", node,
                                          "{} has no attribute {}".format(obj.cls.name, attr)))]
             kind, mod, mnode, cnode = mem
@@ -694,9 +709,34 @@ class Interp:
                         "table-key", "KeyError", node,
                         "key(s) {} not in table {}".format(bad[:4], base.name))))
                 if good:
+                    if any(isinstance(d[k], e1.Opaque) and d[k].kind == "instance" for k in good):
+                        # a table of module-level instances: one path per key, the instance as a
+                        # shared (pre-existing) object
+                        first = True
+                        for k in sorted(good):
+                            s2 = st if first and len(good) == 1 else st.fork()
+                            first = False
+                            self._refine_expr(s2, node.slice, StrV([k], sym=key.sym))
+                            v = d[k]
+                            if isinstance(v, e1.Opaque) and v.kind == "instance" and isinstance(v.info[0], e1.ClassRef):
+                                out.append((s2, self._global_object(s2, self.cur_mod[-1],
+                                                                    "{}[{!r}]".format(base.name, k), v)))
+                            else:
+                                out.append((s2, self.lift(v)))
+                        return out
                     self._refine_expr(st, node.slice, StrV(good, sym=key.sym))
                     out.append((st, join_vals([self.lift(d[k]) for k in sorted(good)])))
                 return out
+            if isinstance(key, BoolV):
+                out = []
+                if key.value is None:
+                    for s2, t in self._unknown_bool(st, key.sym if key.sym else ("bool", self.where(node))):
+                        out.append((s2, self.lift(d[t])) if t in d else
+                                   (s2, self.raised("table-key", "KeyError", node, "key not in table")))
+                    return out
+                if key.value in d:
+                    return [(st, self.lift(d[key.value]))]
+                return [(st, self.raised("table-key", "KeyError", node, "key not in table"))]
             if isinstance(key, IntV) and key.is_const():
                 if key.lo in d:
                     return [(st, self.lift(d[key.lo]))]
@@ -766,6 +806,25 @@ class Interp:
         slot = self.slot_of(node, st)
         if slot is not None:
             self.write_slot(st, slot, val)
+        # the same input value may be held by other variables (a parameter of a helper it was
+        # passed to, the attribute it was read from): narrow every copy, so that a second test of
+        # the same value on this path cannot take the other outcome
+        sym = getattr(val, "sym", None)
+        if isinstance(val, (StrV, EnumV)) and isinstance(sym, tuple) and sym and sym[0] in ("attr", "param", "group"):
+            def narrower(old):
+                if type(old) is not type(val) or getattr(old, "sym", None) != sym:
+                    return False
+                if isinstance(val, StrV):
+                    return val.vals is not None and (old.vals is None or set(val.vals) < set(old.vals))
+                return set(val.names) < set(old.names)
+            for fr in st.frames:
+                for k, v in list(fr.items()):
+                    if isinstance(v, (StrV, EnumV)) and narrower(v):
+                        fr[k] = val
+            for o in st.heap.values():
+                for k, v in list(o.attrs.items()):
+                    if isinstance(v, (StrV, EnumV)) and narrower(v):
+                        o.attrs[k] = val
 
     # ------------------------------------------------------------------
     def ev_UnaryOp(self, n, st):
